@@ -53,6 +53,7 @@ Definition I_prql : idtab := {|
   it_fmt_rest := GenCodegen.fmt_ident_rest;
   it_disp_start := GenCodegen.disp_ident_start;
   it_disp_rest := GenCodegen.disp_ident_rest;
+  it_disp_reserved := GenCodegen.disp_reserved;
   it_lex_keywords := GenCodegen.lex_keywords;
 |}.
 
